@@ -86,6 +86,11 @@ def main():
     if args and args[0] == "--stage":
         stage = args[1]
         args = args[2:]
+    prefix = ""
+    if "--prefix" in args:
+        i = args.index("--prefix")
+        prefix = args[i + 1]
+        args = args[:i] + args[i + 2:]
     extra_props = []
     if "--also" in args:
         i = args.index("--also")
@@ -100,17 +105,18 @@ def main():
                 patch, demo, mj = (os.path.join(d, f) for f in (f"m{k}.diff", f"demo_m{k}.py", f"m{k}.json"))
                 if not (os.path.exists(patch) and os.path.exists(demo)):
                     continue
-                dest = os.path.join(VERIF, "seeded", pid, f"m{k}")
+                dest = os.path.join(VERIF, "seeded", pid, f"{prefix}m{k}")
                 if os.path.exists(os.path.join(dest, "meta.json")):
                     continue
                 c = confirm(patch, demo)
-                print(pid, f"m{k}", "confirm:", c, flush=True)
+                print(pid, f"{prefix}m{k}", "confirm:", c, flush=True)
                 if not c["confirmed"]:
                     continue
                 os.makedirs(dest, exist_ok=True)
                 shutil.copy(patch, os.path.join(dest, "patch.diff"))
                 shutil.copy(demo, os.path.join(dest, "demo.py"))
-                meta = {"property": pid, "origin": "fresh sub-agent given only the property text and a scratch worktree"}
+                meta = {"property": pid, "round": 2 if prefix else 1,
+                        "origin": "fresh sub-agent given only the property text and a scratch worktree"}
                 try:
                     meta.update(json.load(open(mj)))
                 except Exception:
